@@ -2,6 +2,7 @@
 
 from __future__ import annotations
 
+import asyncio
 import random
 
 from .. import apiworld as AW
@@ -40,9 +41,98 @@ def cases(tier, seed):
     for i in range(n):
         yield {"gen": rnd.choice((4, 5)), "seed": rnd.randrange(1 << 30),
                "n": rnd.randint(3, 25), "raise_mask": i % 16, "reinit": i % 5 == 0}
+    for i in range(16 if tier == "quick" else 2000):
+        yield {"k": "midinit", "gen": (5, 4)[i % 2], "seed": rnd.randrange(1 << 30),
+               "latency": rnd.choice([0.05, 0.2, 0.3]), "poll": rnd.choice([0.01, 0.05, 0.11])}
+
+
+_Z_STATUS = ("power_state", "control_method", "has_temp_sensor", "sensor_battery_status",
+             "current_temperature", "target_temperature", "current_damper_percentage",
+             "spill_active")
+_A_STATUS = ("power_state", "selected_mode", "active_mode", "selected_fan_speed",
+             "active_fan_speed", "current_temperature", "target_temperature", "spill_state",
+             "error_info", "on_timer", "off_timer")
+
+
+def run_midinit(case):
+    """Subscriptions made while init() is still under way: the air-conditioner and zone
+    objects are public as soon as they exist. A subscriber whose entity shows other
+    status-derived values when init() returns than at the moment it subscribed was told."""
+    gen = case["gen"]
+    rnd = random.Random(case["seed"])
+    viol, obs = [], {}
+
+    async def main(loop, net, log):
+        from .. import console as C
+        inst = c10.installation(gen, rnd)
+        w = AW.ApiWorld(gen, loop, net, log, inst, C.Knobs(latency=case["latency"]))
+        it = loop.create_task(w.at.init())
+        held = {}
+
+        def zsnap(z):
+            d = H.snapshot_zone(z)
+            return {k: d[k] for k in _Z_STATUS}
+
+        def asnap(a, zones):
+            d = H.snapshot_ac(a)
+            out = {k: d[k] for k in _A_STATUS}
+            if zones:
+                out["zones"] = {z.zone_id: zsnap(z) for z in a.zones}
+            return out
+
+        while not it.done():
+            for a in w.at.air_conditioners:
+                if ("ac", a.ac_id) not in held:
+                    s1 = H.Sub(log, f"ac:{a.ac_id}", hashv=rnd.getrandbits(20))
+                    s2 = H.Sub(log, f"ac_state:{a.ac_id}", hashv=rnd.getrandbits(20))
+                    a.subscribe(s1)
+                    a.subscribe_ac_state(s2)
+                    held["ac", a.ac_id] = (s1, a, True, None)
+                    held["ac_state", a.ac_id] = (s2, a, False, asnap(a, False))
+                for z in a.zones:
+                    if ("zone", z.zone_id) not in held:
+                        s3 = H.Sub(log, f"zone:{z.zone_id}", hashv=rnd.getrandbits(20))
+                        z.subscribe(s3)
+                        held["zone", z.zone_id] = (s3, z, None, zsnap(z))
+                # the general subscriber also hears about zones: its reference is the state of
+                # the unit and of the zones it listed when the last of them was seen
+                s1, _a, _f, before = held["ac", a.ac_id]
+                if before is None or set(before["zones"]) != {z.zone_id for z in a.zones}:
+                    if not s1.calls:
+                        held["ac", a.ac_id] = (s1, a, True, asnap(a, True))
+            await asyncio.sleep(case["poll"])
+        ok = await it
+        await quiesce(loop)
+        if ok is not True:
+            viol.append({"mechanism": "init-failed-on-plain-console", "detail": {"ret": ok}})
+            return
+        for (kind, ent), (sub, obj, zones, before) in held.items():
+            now = zsnap(obj) if kind == "zone" else asnap(obj, zones)
+            if before is None or set(before.get("zones", ())) != set(now.get("zones", ())):
+                continue
+            if now != before:
+                obs["subscribed_during_init_and_entity_changed"] = obs.get(
+                    "subscribed_during_init_and_entity_changed", 0) + 1
+                if not sub.calls:
+                    diff = {k: (before[k], now[k]) for k in now if before[k] != now[k]}
+                    viol.append({"mechanism": "subscriber-not-called-on-change:during-init",
+                                 "detail": {"subscriber": sub.name, "changed": H.jsonable(diff)}})
+            else:
+                obs["subscribed_during_init_entity_unchanged"] = obs.get(
+                    "subscribed_during_init_entity_unchanged", 0) + 1
+        await w.at.shutdown()
+
+    _, log, st = H.run(main)
+    if st != "ok":
+        viol.append({"mechanism": "subscriber-world-hang", "detail": {"status": st}})
+    dec = obs.get("subscribed_during_init_and_entity_changed", 0)
+    return {"violations": H.cap(viol), "evals": max(dec, 1), "decided": dec, "distinct": dec,
+            "obs": obs, "sample": {"gen": gen, "midinit": True}}
 
 
 def run_case(case):
+    if case.get("k") == "midinit":
+        return run_midinit(case)
     gen = case["gen"]
     rnd = random.Random(case["seed"])
     viol = []
